@@ -384,7 +384,9 @@ OPTS = list(itertools.product(SIZEM, MINW, EVEN, VAC))       # 36; OPTS[0] is th
 FOPTS = [('111', None, False, None), ('213', None, False, None), ('111', None, True, 7.5), ('neg', None, False, 0.0)]
 TH = Fr(1, 3)
 DISP = ([('a', a1, a2, None) for a1 in (0, TH, H, 1) for a2 in (0, TH, H, 1)]
-        + [('a', TH, None, 0.4), ('a', None, None, 0.25), ('a', None, H, None), ('fs', 0.3, -0.2, 0.0), ('fs', -0.45, 0.15, 0.35), ('none',)])
+        + [('a', TH, None, 0.4), ('a', None, None, 0.25), ('a', None, H, None), ('fs', 0.3, -0.2, 0.0), ('fs', -0.45, 0.15, 0.35), ('none',),
+           # normal components larger than the gap between the top layer and the (non-periodic) top face of the slab
+           ('a', None, TH, 2.5), ('fs', 0.1, 0.2, 3.1)])
 
 REFUSE_MSG = {'a': "box bvect and cvect cannot have x component for cutboxvector='a'",
               'b': "box avect and cvect cannot have y component for cutboxvector='b'",
